@@ -233,11 +233,17 @@ def expand_fn(src, qual, opts, sections, tline0, notes, drop_hints=False):
     for s in sections:
         if s['kind'] == 'subst':
             cnt = text.count(s['old'])
-            if cnt != s['count']:
-                raise GenError('%s %s: subst %s expected %d occurrence(s) of %r, found %d' %
-                               (src.rel, qual, s['id'], s['count'], s['old'], cnt))
             if s['old'].count('\n') != s['new'].count('\n'):
                 raise GenError('%s %s: subst %s must preserve line count' % (src.rel, qual, s['id']))
+            if cnt != s['count']:
+                # SUBST-COUNT: the construct the normalisation is for occurs a different number of times than when the
+                # template was written (the source changed).  A normalisation replaces a construct by an equivalent one
+                # wherever it occurs, so it is applied to every occurrence (possibly none) and the text goes to the verifier
+                # as it is: it is then accepted, refuted, or rejected by the front end (UNDECIDED) -- never silently skipped
+                notes.append({'id': 'SUBST-COUNT', 'what': 'subst %s: expected %d occurrence(s) of %r, found %d' % (s['id'], s['count'], s['old'], cnt),
+                              'file': src.rel, 'fn': qual})
+                if cnt == 0:
+                    continue
             text = text.replace(s['old'], s['new'])
             notes.append({'id': s['id'], 'what': 'rewrite %r => %r (x%d)' % (s['old'], s['new'], cnt),
                           'file': src.rel, 'fn': qual})
